@@ -41,7 +41,7 @@ def line_protocol(
         )
     output_str += " "
     output_str += ",".join(
-        ("%s=%s" % (_escape_key(key), _escape_field(value))).replace("'", '"')
+        "%s=%s" % (_escape_key(key), _escape_field(value))
         for key, value in sorted(fields.items())
     )
     if timestamp is not None:
